@@ -48,6 +48,16 @@ CLAIMED = {
    note='Trusted: Coq kernel; extraction + OCaml driver; hand-written models of tnetstrings and of the 4-state tnet machine / receive loop (not the generic automata '
         'engine) tied by differential runs; floats carried as their str() text (float(str(f))==f checked on samples); only integer spellings dump produces.',
    technique='Coq proof (nested induction over values; phase lemmas for the streaming machine) + correspondence', design='6 C20'),
+
+ 'C15': dict(
+   text='Coq theorems (Properties/C15.v): the accept decision is true for every route path when unconfigured; for a simple device iff the request has no '
+        '(or an empty) route path; for a configured path c iff absent/empty/exactly c; a refused request yields encapsulation status 0x08 with the store '
+        'untouched and the request never executed, an accepted one is executed exactly as Model.Logix.exec; printing a well-formed route path and parsing '
+        'the text yields the same segments.  Tie: correspondence with complete SendRRData frames through logix.process under a UCMM subclass per personality '
+        '(all personalities x request paths x services in thorough) and parse_route_path on text/JSON.',
+   note='Trusted: Coq kernel; extraction + driver; hand-written Model/Route.v tied by the differential run; request frames are built with cpppo\'s own producers; '
+        'remote routing (UCMM.route table) not modelled; IPv4 dotted quads only.',
+   technique='Coq proof (decision procedure equivalences, text round trip by induction) + exhaustive correspondence on the personality x path grid', design='6 C15'),
 }
 PENDING = {}
 ALL = ['C%02d' % i for i in range(1, 21)]
